@@ -2,7 +2,6 @@ import RoaringModel.Lemmas.ArrMerge
 import RoaringModel.Lemmas.ArrFacts
 import RoaringModel.Lemmas.BStoreBasic
 import RoaringModel.Lemmas.StoreFacts
-import RoaringModel.Lemmas.UnsafeLemmas
 /-!
 # Fidelity audit, area "stores and 32-bit iterators": the mirrored definitions equal the model definitions
 
@@ -18,7 +17,9 @@ The mirrored definitions themselves (quoting the Rust next to them) live next to
   `insertRange_mirror_eq` (needs the last word index inside the list; guarded csimp `insertRange_eq_exec`).
 * `BStore.toArrayOp dbg`, `Store.arrToBitmapOp dbg` — the two conversions with the debug validation of the
   `*_unchecked` constructor they end in.
-* `Unsafe.retain` (Unsafe.lean) — `ArrayStore::retain` at index level (`pos` write cursor, `truncate(pos)`).
+* `Unsafe.retain` (Unsafe.lean) — `ArrayStore::retain` at index level (`pos` write cursor, `truncate(pos)`); its
+  equalities (`retain_eq`, `retainList_and/sub`, `retain_filter`) are in `Lemmas/UnsafeLemmas.lean` (that file cannot be
+  imported together with `Lemmas/BIterDefs.lean`, so it is kept apart).
 
 This file states the equalities under the shared invariants (`Sorted` / `Arr.Inv` / `BStore.Inv`, i.e. what `Store.Inv`
 — hence `Bitmap.WF` — gives for every chunk) in the form the `Props/*.lean` corollaries use.
@@ -82,23 +83,5 @@ theorem arrToBitmapOp_eq (dbg : Bool) (v : List Nat) (hv : Arr.Inv v) : arrToBit
     rw [BStore.tryFrom_spec, if_pos h]; rfl
 
 end Store
-
-namespace Unsafe
-
-/-- `retain` with a stateless predicate (the closures `|x| rhs.contains(x)` / `|x| !rhs.contains(x)` of
-    `ArrayStore &= &BitmapStore` / `-= &BitmapStore`) keeps exactly `List.filter` -/
-theorem retainList_filter (p : Nat → Bool) : ∀ l : List Nat,
-    (retainList (fun (_ : Unit) x => ((), p x)) () l).1 = l.filter p := by
-  intro l
-  induction l with
-  | nil => rfl
-  | cons x l ih =>
-    simp only [retainList, ih, List.filter_cons]
-
-theorem retain_filter (p : Nat → Bool) (vec : Array Nat) :
-    (retain (fun (_ : Unit) x => ((), p x)) () vec).1.toList = vec.toList.filter p := by
-  rw [(retain_eq _ _ _).1, retainList_filter]
-
-end Unsafe
 
 end Roaring
